@@ -6,6 +6,7 @@ verus! {
 //@include ../common/core.rs
 
 // ===================================================================== stand-ins (TRUSTED BASE)
+//@once send, wake
 #[verifier::external_body]
 pub struct Conn { _p: () }
 /// tokio mpsc: `send` succeeds iff the receiver is alive, otherwise it hands the value back inside SendError
